@@ -34,6 +34,22 @@ def seeded_table():
         rows.append("| `%s` | %s | %s | %s | %s |" % (os.path.basename(d), target, summ, conf, c))
     return "\n".join(rows) + "\n"
 
+def summary_table():
+    man = json.load(open(os.path.join(VERIF, "MANIFEST.json")))
+    rows = ["| id | decided by (technique) | last committed evidence: tier, evaluations, distinct non-trivial, wall |", "|---|---|---|"]
+    for c in man["checks"]:
+        pid = c["property_id"]
+        ev = {}
+        p = os.path.join(VERIF, "evidence", pid + ".json")
+        if os.path.exists(p):
+            ev = json.load(open(p))
+        cov = ev.get("coverage", {})
+        rows.append("| %s | %s | %s: %s evaluations, %s distinct, %.0f s |" % (pid, c.get("technique", "").replace("runtime monitoring: ", ""), ev.get("tier", "?"),
+                    format(cov.get("evaluations", 0), ","), format(cov.get("distinct_nontrivial", 0), ","), ev.get("wall_s", 0)))
+    for n in man.get("not_applicable", []):
+        rows.append("| %s | **not applicable** — %s | – |" % (n["property_id"], n["reason"]))
+    return "\n".join(rows) + "\n"
+
 def splice(text, marker, body):
     a, b = "<!-- %s:begin -->" % marker, "<!-- %s:end -->" % marker
     if a not in text:
@@ -45,5 +61,6 @@ if __name__ == "__main__":
     t = open(p).read()
     t = splice(t, "selftest-table", selftest_table())
     t = splice(t, "seeded-table", seeded_table())
+    t = splice(t, "summary-table", summary_table())
     open(p, "w").write(t)
     print("DESIGN.md tables refreshed")
